@@ -477,6 +477,57 @@ def _compare_templates(templates, reps, graphs, rk, where):
 
 
 # ---------------------------------------------------------------- generators
+# ---------------------------------------------------------------- equal-by-value entries (the same graph object twice)
+def body_twin_entries(case, rec):
+    """Entries are plain {rule_key: graph} dicts without any distinguishing field, and some of them hold the very same
+    graph object (data with repeated records): such entries compare equal as dicts.  Classification must still be by
+    position: one-shot clustering, batched clustering with and without pre-existing representatives, all must give the
+    reference partition of the positions."""
+    from synkit.Graph.Matcher.batch_cluster import BatchCluster
+    from synkit.Graph.Matcher.graph_cluster import GraphCluster
+
+    built = [build_item(spec) for spec in case["items"]]
+    pos = case["positions"]  # position -> index into built (repeats = the same object)
+    graphs = [built[i % len(built)] for i in pos]
+    rk = RULE_KEYS[case.get("rk", 0) % 3]
+    want = partition_from_matrix(ref_matrix(graphs))
+    twins = len(pos) - len({i % len(built) for i in pos})
+    rec.nt(twins >= 1 and len(want) >= 2)
+    rec.label(f"twin-records={min(twins, 4)}", f"classes={min(len(want), 5)}")
+    rec.show(dict(n=len(graphs), positions=pos, batch=case["batch"], lib=case["lib"]))
+
+    def data():
+        return [{rk: g} for g in graphs]
+
+    out = GraphCluster().fit(data(), rule_key=rk, attribute_key=None)
+    got = partition_from_classes(_classes(out, "GraphCluster.fit"))
+    if got != want:
+        raise Violation("twins:one-shot", f"GraphCluster.fit classes {_fmt(got)} != isomorphism classes {_fmt(want)}")
+    templates = None
+    if case["lib"]:
+        # representatives from a first pass over a library that is larger than the batches used afterwards
+        _, templates = BatchCluster().fit([{rk: g} for g in built], None, rule_key=rk, attribute_key=None, batch_size=None)
+    out2, _ = BatchCluster().fit(data(), templates, rule_key=rk, attribute_key=None, batch_size=case["batch"])
+    if len(out2) != len(graphs):
+        raise Violation("fit-shape", f"BatchCluster.fit returned {len(out2)} entries for {len(graphs)}")
+    got2 = partition_from_classes(_classes(out2, "BatchCluster.fit"))
+    if got2 != want:
+        raise Violation("twins:batched", f"BatchCluster.fit(batch_size={case['batch']}, library={bool(case['lib'])}) classes {_fmt(got2)} != isomorphism classes {_fmt(want)}")
+
+
+@st.composite
+def cases_twins(draw, tier):
+    items = draw(item_lists(max_items=8))
+    n = draw(st.integers(3, 12))
+    return dict(
+        items=items,
+        positions=draw(st.lists(st.integers(0, len(items) - 1), min_size=n, max_size=n)),
+        rk=draw(st.integers(0, 2)),
+        batch=draw(st.sampled_from([None, 1, 2, 3, 4])),
+        lib=draw(st.booleans()),
+    )
+
+
 def _keys():
     return st.lists(st.integers(0, 10**6), min_size=3, max_size=8)
 
@@ -564,4 +615,6 @@ SUBS = [
     Sub("incremental", body_incremental, strategy=cases_inc, examples={"quick": 3000, "thorough": 40000}, shards={"quick": 16, "thorough": 16},
         doc="histories of lib_check / cluster / fit against existing representatives (none, from a first fit, or given "
             "with arbitrary ids): joins the isomorphic representative's class or opens an unused id"),
+    Sub("twin_entries", body_twin_entries, strategy=cases_twins, examples={"quick": 2400, "thorough": 30000}, shards={"quick": 16, "thorough": 16},
+        doc="entries without any distinguishing field, some holding the very same graph object (equal as dicts): one-shot and batched clustering, with and without a larger pre-existing library, against the reference partition of the positions"),
 ]
